@@ -225,6 +225,70 @@ func coverSentencesByRule(c *Case, r *rand.Rand) [][]string {
 	return res
 }
 
+// accessStrings: for every state of the recorded automaton a terminal string that drives the parser into it
+// (shortest symbol path through the goto graph from the start state, nonterminals replaced by one of their
+// shortest terminal derivations).  Such prefixes are usually not sentences: they exercise what the parser does
+// on arriving in each state (shift targets, error entries, premature accepts).
+func accessStrings(c *Case, o *Obs) [][]string {
+	if o == nil || len(o.Gotos) == 0 {
+		return nil
+	}
+	h := minHeights(c)
+	var expand func(sym string) []string
+	expand = func(sym string) []string {
+		if !c.isNT(sym) {
+			return []string{sym}
+		}
+		var best *Rule
+		for i := range c.Rules {
+			ru := &c.Rules[i]
+			if ru.Lhs == sym && ruleHeight(h, *ru) < 1<<30 && (best == nil || ruleHeight(h, *ru) < ruleHeight(h, *best)) {
+				best = ru
+			}
+		}
+		if best == nil {
+			return nil
+		}
+		var out []string
+		for _, s := range best.Rhs {
+			out = append(out, expand(s)...)
+		}
+		return out
+	}
+	n := len(o.Gotos)
+	path := make([][]string, n)
+	seen := make([]bool, n)
+	seen[0] = true
+	queue := []int{0}
+	for len(queue) > 0 {
+		q := queue[0]
+		queue = queue[1:]
+		for _, gt := range o.Gotos[q] {
+			t := gt.To - 1
+			if t < 0 || t >= n || seen[t] {
+				continue
+			}
+			seen[t] = true
+			path[t] = append(append([]string{}, path[q]...), gt.Sym)
+			queue = append(queue, t)
+		}
+	}
+	var res [][]string
+	for t := 1; t < n; t++ {
+		if !seen[t] {
+			continue
+		}
+		var out []string
+		for _, s := range path[t] {
+			out = append(out, expand(s)...)
+		}
+		if len(out) > 0 && len(out) <= 60 {
+			res = append(res, out)
+		}
+	}
+	return res
+}
+
 // GenInputs returns inputs as ordinal sequences (1-based index into
 // c.Terminals(); 0 = a token code the grammar does not know).
 func GenInputs(c *Case, r *rand.Rand, limit, kmax, nrandom int) [][]int {
@@ -534,15 +598,23 @@ func cmdCampaign(args []string) {
 		cases = p.cases()
 		r := rand.New(rand.NewSource(p.seed*7919 + 13))
 		for _, c := range cases {
+			if c.Family == "probe" { // comes with its own actions; in the run campaign no action abandons the parse
+				for i := range c.Rules {
+					c.Rules[i].Act.Abort = false
+				}
+				continue
+			}
 			Valuate(c, r, r.Intn(100) < *valuedPct)
 		}
 	}
 	// keep only cases yaccgo accepts (the campaign is about generated parsers)
 	var kept []*Case
+	var keptObs []*Obs
 	for _, c := range cases {
 		o := Observe(c)
 		if o.Outcome == "ok" {
 			kept = append(kept, c)
+			keptObs = append(keptObs, o)
 		}
 	}
 	cases = kept
@@ -564,6 +636,28 @@ func cmdCampaign(args []string) {
 			}
 		} else {
 			inputs[i] = GenInputs(c, r, cfg.limit, cfg.kmax, cfg.nrandom)
+			// one access string per state of the automaton (at most 300)
+			ord := map[string]int{}
+			for k, t := range c.Terminals() {
+				ord[t] = k + 1
+			}
+			have := map[string]bool{}
+			for _, in := range inputs[i] {
+				have[fmt.Sprint(in)] = true
+			}
+			for k, s := range accessStrings(c, keptObs[i]) {
+				if k >= 300 {
+					break
+				}
+				in := make([]int, len(s))
+				for j, x := range s {
+					in[j] = ord[x]
+				}
+				if !have[fmt.Sprint(in)] {
+					have[fmt.Sprint(in)] = true
+					inputs[i] = append(inputs[i], in)
+				}
+			}
 		}
 		os.MkdirAll(filepath.Join(cfg.out, fmt.Sprintf("c%d", i+1)), 0755)
 		writeInputs(filepath.Join(cfg.out, fmt.Sprintf("c%d", i+1), "inputs.txt"), inputs[i])
